@@ -127,7 +127,9 @@ class ILI(_DatabaseEntity):
 
     def metadata(self) -> Metadata:
         """Return the ILI's metadata."""
-        table = 'proposed_ilis' if self.status == 'proposed' else 'ilis'
+        # a proposed ILI (a row of proposed_ilis) is the one without an id;
+        # the status string of an existing ILI is free text from the index
+        table = 'proposed_ilis' if self.id is None else 'ilis'
         return get_metadata(self._id, table)
 
 
